@@ -447,6 +447,10 @@ def proportional_defect(a, b, A):
     return out
 
 
+# corner values of angles / coefficients: multiples of pi/2 (where sines and cosines vanish), 0, and values just beside them
+_SPECIAL = [k * math.pi / 2 for k in range(-8, 9)] + [0.0, 1e-12, -1e-12, 2 * math.pi + 1e-12, 1.0, -1.0, 0.5]
+
+
 def find_witness(polys, inputs, tries=200, seed=0, constraint=None):
     """numeric witness (values of the symbolic inputs) at which one of the non-zero polynomials is visibly non-zero"""
     import random
@@ -457,7 +461,7 @@ def find_witness(polys, inputs, tries=200, seed=0, constraint=None):
         vals = {}
         for name, p in inputs.items():
             if isinstance(p, Poly):
-                v = rnd.choice([rnd.uniform(-7, 7), rnd.uniform(-1, 1), rnd.uniform(0, 13)])
+                v = rnd.choice([rnd.uniform(-7, 7), rnd.uniform(-1, 1), rnd.uniform(0, 13), rnd.choice(_SPECIAL)])
                 for var in p.vars():
                     env[var.id] = v
                 vals[name] = v
